@@ -75,6 +75,14 @@ def err (c : String) : Err := ⟨c⟩
 def idBase : Int := 1000000000
 def idKey (n : Nat) : V := .int (idBase + n)
 
+def isStop : V → Bool
+  | .stop => true
+  | _ => false
+
+def isSkip : V → Bool
+  | .skip => true
+  | _ => false
+
 /-! ### Python dict primitives on entry lists -/
 
 /-- hash/eq of dict keys: scalars by value (`True == 1`), spec objects by identity;
@@ -313,8 +321,7 @@ def loopWith (step : V → List (V × V) → Except Err (V × List (V × V))) :
   | t :: ts, ret, tree =>
     match step t tree with
     | .error e => .error e
-    | .ok (.stop, _) => .ok ret
-    | .ok (r, tree') => loopWith step ts r tree'
+    | .ok (r, tree') => if isStop r then .ok ret else loopWith step ts r tree'
 
 /-- `scope[glom](target, spec, scope)` in Group mode, with `scope[ACC_TREE] = tree`:
     the result and the tree afterwards -/
@@ -353,9 +360,10 @@ def gstep : GSpec → V → List (V × V) → Except Err (V × List (V × V))
     let tree := if dhas tree (idKey id) then tree else dset tree (idKey id) (.list [])
     match f.apply target with
     | .error e => .error e
-    | .ok .stop => .ok (.stop, tree)
-    | .ok .skip => .ok (.list acc, tree)
-    | .ok v => .ok (.list (acc ++ [v]), dset tree (idKey id) (.list (acc ++ [v])))
+    | .ok v =>
+      if isStop v then .ok (.stop, tree)                  -- if result is STOP: return STOP
+      else if isSkip v then .ok (.list acc, tree)         -- if result is not SKIP: acc.append(result)
+      else .ok (.list (acc ++ [v]), dset tree (idKey id) (.list (acc ++ [v])))
   | .dict id kid key sub, target, tree =>
     -- acc = tree[id(spec)]  (created as {} on first use); whatever dict sits in that slot IS acc
     let slot := idKey id
@@ -369,10 +377,10 @@ def gstep : GSpec → V → List (V × V) → Except Err (V × List (V × V))
       else
         match key.apply target with
         | .error e => .error e
-        | .ok .skip => .ok (.dict acc, tree)            -- done = False
-        | .ok .stop => .ok (.stop, dset tree (.obj kid) .stop)
         | .ok k =>
-          if !(hashable k) then .error (err "TypeError") else
+          if isSkip k then .ok (.dict acc, tree)          -- if key is SKIP: done = False; continue
+          else if isStop k then .ok (.stop, dset tree (.obj kid) .stop)   -- tree[keyspec] = STOP; continue
+          else if !(hashable k) then .error (err "TypeError") else
           let fresh := !(dhas acc k)
           -- if key not in acc: tree[key] = {}
           let tree := if fresh then dset tree k (.dict []) else tree
@@ -388,11 +396,10 @@ def gstep : GSpec → V → List (V × V) → Except Err (V × List (V × V))
               let tree := dset tree k (.dict st')
               -- the object `acc` names, after the callee ran
               let accNow := if aliased && !detached then st' else acc
-              match r with
-              | .stop => .ok (.stop, dset tree (.obj kid) .stop)
-              | .skip => .ok (.dict accNow, tree)
-              | r =>
-                let acc' := dset accNow k r             -- acc[key] = result
+              if isStop r then .ok (.stop, dset tree (.obj kid) .stop)     -- tree[keyspec] = STOP; continue
+              else if isSkip r then .ok (.dict accNow, tree)               -- done = False
+              else
+                let acc' := dset accNow k r                                -- acc[key] = result
                 .ok (.dict acc', if detached then tree else dset tree slot (.dict acc'))
 
 def groupLoop (g : GSpec) : List V → V → List (V × V) → Except Err V := loopWith (gstep g)
